@@ -569,7 +569,7 @@ every-scalar sweep over the shipped rewrite.def (alone, after 'A', before 'a'); 
     let earliest = impl_earliest();
     run.extra.insert("model_instance_earliest".into(), serde_json::json!(earliest));
     let system = tiny_system();
-    let wd = Workdir::new("c07");
+    let wd = Workdir::new_legacy("c07");
     let n = run.opts.count;
     // ---- sweep lines (thorough: every scalar; quick: a sample of blocks) take the first indices after the random cases
     let mut loaded: Option<(usize, Loaded)> = None;
